@@ -292,3 +292,34 @@ package storage
 //@   ensures [C06.wire.events] err == nil ==> e.events != nil && e.events.engine == e && e.events.eventsCh != nil && !chanClosed(e.events.eventsCh)
 //@   ensures [C13.wire.store+C14] err == nil ==> e.Manager != nil && e.tableStore != nil && e.tableStore.NodeHost == e.NodeHost && e.Manager.nh == e.NodeHost && typeIs(e.Manager.store, *kv.RaftStore) && asType(e.Manager.store, *kv.RaftStore) == e.tableStore
 //@   modifies nothing
+
+// ---------------------------------------------------------------- starting the engine's services (C06, C14, C19)
+
+// Start: the metadata shard is started under this node's id, and every background service a
+// property relies on is started once: the event dispatcher (compaction events reach the log cache,
+// C06), the manager's reconcile and cleanup loops (C14), the cluster's refresh loop (C19).
+//@ ghostfield any.ndisp Int
+//@ spawn (*events).dispatchEvents
+//@   params e
+//@   ensures e.ndisp == old(e.ndisp) + 1
+//@   modifies e.ndisp
+//@ func (*Engine).Start
+//@   maypanic
+//@   results err
+//@   requires e != nil && e.Cluster != nil && e.Cluster.ml != nil && e.Cluster.log != nil && allocated(e.Cluster.stop) && allocated(e.Cluster.not) && e.Cluster.not != e.Cluster.stop
+//@   requires e.tableStore != nil && e.tableStore.NodeHost != nil
+//@   requires e.Manager != nil && e.Manager.log != nil && e.Manager.store != nil && e.Manager.nh != nil && e.Manager.cfg.Table.FS != nil && allocated(e.Manager.closed)
+//@   requires e.events != nil && e.events.engine != nil && e.events.engine.log != nil && e.events.engine.Cluster != nil
+//@   before kv.(*RaftStore).Start assert [C13.start.node] cfg.NodeID == e.cfg.NodeID
+//@   ensures [C06.start.services+C14+C19] err == nil ==> e.events.ndisp == old(e.events.ndisp) + 1 && e.Manager.nrecon == old(e.Manager.nrecon) + 1 && e.Manager.nclean == old(e.Manager.nclean) + 1 && e.Cluster.nnotify == old(e.Cluster.nnotify) + 1
+//@   modifies e.events.ndisp, e.Manager.nrecon, e.Manager.nclean, e.Cluster.nnotify
+// Close: both stop channels are closed - the event dispatcher and the manager's loops end - before the node host goes down
+//@ func dragonboat.(*NodeHost).Close
+//@   assumed
+//@   modifies nothing
+//@ func (*Engine).Close
+//@   maypanic
+//@   requires e != nil && e.Manager != nil && e.stop != nil && e.Manager.closed != nil && !chanClosed(e.stop) && !chanClosed(e.Manager.closed) && e.stop != e.Manager.closed
+//@   before dragonboat.(*NodeHost).Close assert [C14.close.order] chanClosed(e.stop) && chanClosed(e.Manager.closed)
+//@   ensures result == nil
+//@   modifies family(CH_closed)
